@@ -123,6 +123,21 @@ def check_one(atoms, pr, small_oracle=True):
     return v, s
 
 
+def sequence_in_fresh_process(names, pr, tier, seed):
+    """Executed through mc.isolated in a fresh interpreter: one Classifier, the given sequence of systems."""
+    from matid.classification.classifier import Classifier
+
+    R = dict(reps(tier, seed))
+    clf = Classifier(**pr)
+    out = []
+    for n in names:
+        try:
+            out.append(summarize(clf.classify(R[n].copy())))
+        except Exception as e:
+            out.append({"cls": "EXC:" + type(e).__name__})
+    return out
+
+
 def check_history(systems, pr):
     """classify(A); classify(B); classify(A) on one instance vs fresh instances."""
     from matid.classification.classifier import Classifier
@@ -140,6 +155,29 @@ def check_history(systems, pr):
     return v
 
 
+def history_violations(names, pr, tier, seed, res=None):
+    R = dict(reps(tier, seed))
+    try:
+        v = check_history([R[n] for n in names], pr)
+    except Exception as e:
+        v = [("exception", "classify raised %r" % (e,))]
+    if not v:
+        # the same sequence in a fresh interpreter: "repeated calls give the same class" must also hold when other
+        # structures are classified in between (state shared through the process, not through the instance)
+        from mc import isolated
+
+        outs = isolated.call("mc.props.c17", "sequence_in_fresh_process", [list(names), pr, tier, seed])
+        if res is not None:
+            res.counters["transitions"] += len(names)
+        first = {}
+        for k2, (nm, o) in enumerate(zip(names, outs)):
+            if nm in first and first[nm] != o:
+                v = [("history_process", "in a fresh process, call %d of the sequence %s classifies %s as %s, the first call on the same structure gave %s" % (k2, list(names), nm, o, first[nm]))]
+                break
+            first.setdefault(nm, o)
+    return v
+
+
 def reps(tier, seed):
     """Six representative systems for the history exploration."""
     base = {n: a for n, a, _ in families.f2_bases()}
@@ -148,8 +186,12 @@ def reps(tier, seed):
     vac = base["fcc100slab.TTF"].copy()
     del vac[13]
     del vac[4]
+    from ase.build import bcc100
+
+    fe = bcc100("Fe", size=(4, 4, 3), vacuum=6.0)
+    fe.set_pbc([True, True, False])
     return [("fcc100slab.TTF", base["fcc100slab.TTF"]), ("graphene33", base["graphene33"]), ("fcc222", base["fcc222"]), ("stack", st),
-            ("H2O", mol["H2O.box8.TTT"]), ("slab-2vac", vac)]
+            ("bcc100slab.Fe", fe), ("slab-2vac", vac)]
 
 
 def run_shard(shard, tier, seed):
@@ -164,10 +206,7 @@ def run_shard(shard, tier, seed):
                 res.counters["states"] += 1
                 res.counters["transitions"] += len(seq)
                 res.counters["traces"] += 1
-                try:
-                    v = check_history([x[1] for x in seq], pr)
-                except Exception as e:
-                    v = [("exception", "classify raised %r" % (e,))]
+                v = history_violations([x[0] for x in seq], pr, tier, seed, res)
                 res.outcomes["hist"] += 1
                 res.nontrivial.add("h:%s" % "-".join(x[0] for x in seq))
                 if v:
@@ -206,11 +245,7 @@ def run_shard(shard, tier, seed):
 def replay(case):
     out = []
     if case["kind"] == "hist":
-        R = dict(reps(case.get("tier", "quick"), case.get("seed", 0)))
-        try:
-            v = check_history([R[n] for n in case["seq"]], case["params"])
-        except Exception as e:
-            v = [("exception", repr(e))]
+        v = history_violations(case["seq"], case["params"], case.get("tier", "quick"), case.get("seed", 0))
         for kind, d in v[:1]:
             out.append({"signature": {"check": "c17." + kind, "seq": "-".join(case["seq"]), "params": str(case["params"])}, "case": case, "reason": d})
         return out
